@@ -38,6 +38,7 @@ type Op struct {
 	NoIter   bool     `json:"no_iter,omitempty"` // deprecated benchmark option (slice path of simple output)
 	NilCtx   bool     `json:"nil_ctx,omitempty"`    // WithMassive(nil)
 	NilOption bool    `json:"nil_option,omitempty"` // a nil Option among the options
+	EmptyTarget bool  `json:"empty_target,omitempty"` // WithTargetDir("") is passed: documented to mean the current directory
 }
 
 func (o Op) String() string {
@@ -112,6 +113,8 @@ type Env struct {
 	AllowBubbleErr bool
 	// MapSeed seeds Go's map hash seeds and iteration offsets for the duration of the call
 	MapSeed uint64
+	// FlushWriter: the caller's writer also has a Flush() error method (like *bufio.Writer)
+	FlushWriter bool
 }
 
 type PanicInfo struct {
@@ -214,7 +217,9 @@ func opOptions(op Op, ctx context.Context, target string) []gtree.Option {
 	if op.Exts != nil {
 		opts = append(opts, gtree.WithFileExtensions(op.Exts))
 	}
-	if target != "" {
+	if op.EmptyTarget {
+		opts = append(opts, gtree.WithTargetDir(""))
+	} else if target != "" {
 		opts = append(opts, gtree.WithTargetDir(target))
 	}
 	if op.Strict {
@@ -373,7 +378,11 @@ func Exec(op Op, env *Env) *Outcome {
 		}()
 		simrt.SeedMaps(env.MapSeed | 1)
 		defer simrt.SeedMaps(0)
-		out.Err = invoke(op, wr, rd, root, cb, opOptions(op, ctx, target))
+		var w io.Writer = wr
+		if env.FlushWriter {
+			w = flushWriter{wr}
+		}
+		out.Err = invoke(op, w, rd, root, cb, opOptions(op, ctx, target))
 		out.Returned = true
 	}()
 	collect(out, rd, wr, cb, d)
@@ -490,8 +499,12 @@ func execSim(op Op, env *Env) *Outcome {
 				}
 			}
 			opts := opOptions(op, ctx, target)
+			var w io.Writer = wr
+			if env.FlushWriter {
+				w = flushWriter{wr}
+			}
 			run.Spawn("0", "harness:0:caller", func() {
-				out.Err = invoke(op, wr, rd, root, cb, opts)
+				out.Err = invoke(op, w, rd, root, cb, opts)
 				out.Returned = true
 				out.WritesAtReturn, out.VisitsAtReturn = wr.n, len(cb.visits)
 				if d != nil {
